@@ -1207,8 +1207,8 @@ class SequenceValue(GenericValue):
             known_members.append(member.val)
         try:
             return KnownValue(typ(known_members))
-        except TypeError:
-            # Probably an unhashable object in a set.
+        except Exception:
+            # Probably an unhashable object in a set (its __hash__ may raise anything).
             return SequenceValue(typ, members)
 
     def can_assign(self, other: Value, ctx: CanAssignContext) -> CanAssign:
